@@ -25,6 +25,10 @@ type Conflict struct {
 	What string
 }
 
+// ModSetDupNames: module sets may contain two files of the same name (set by C12 only: positions and
+// attribution by file name are ambiguous then, so the checks that compare those keep names distinct)
+var ModSetDupNames = false
+
 // GenModSet splits a generated source model over 1..4 files and optionally injects conflicts.
 func GenModSet(rng *rand.Rand, nConflicts int) *ModSet {
 	src := GenModel(rng, GenOpts{DSLValid: true, Conds: true, MaxDepth: 1 + rng.Intn(3), MaxTypes: 5, MaxRels: 4})
@@ -45,6 +49,12 @@ func GenModSet(rng *rand.Rand, nConflicts int) *ModSet {
 			name = fmt.Sprintf("%s/f%d%%s%%d.fga", mod, i) // a '%' in a file name: text, never a format string
 		}
 		ms.Names = append(ms.Names, name)
+	}
+	if ModSetDupNames && nf >= 2 && rng.Intn(4) == 0 {
+		// two files of the list carry the same name (callers passing base names): nothing may depend on names being unique
+		i := rng.Intn(nf)
+		j := (i + 1 + rng.Intn(nf-1)) % nf
+		ms.Names[j] = ms.Names[i]
 	}
 	if rng.Intn(6) == 0 { // shuffle names so that name order != list order
 		rng.Shuffle(len(ms.Names), func(i, j int) { ms.Names[i], ms.Names[j] = ms.Names[j], ms.Names[i] })
@@ -276,6 +286,29 @@ func (ms *ModSet) inject(rng *rand.Rand) {
 			}
 			clash := []Rel{{Name: c[1], Rewrite: CU("zz")}}
 			ms.Conflicts = append(ms.Conflicts, Conflict{Kind: "rel-clash", Alt: -1, File: f, Key: fmt.Sprintf("rel:%s:%s#%d", c[0], c[1], occ), What: c[0] + "#" + c[1]})
+			// a type of the extending file, declared below the extension block, whose name extends the extended
+			// type's name (and may have a relation of the clashing name): lookups by text must not land there
+			addBelow := ""
+			if rng.Intn(4) == 0 {
+				addBelow = c[0] + "_more"
+				for _, fl := range ms.Files {
+					for _, t := range fl.Types {
+						if t.Name == addBelow {
+							addBelow = ""
+						}
+					}
+				}
+			}
+			defer func(f int, name, rel string) {
+				if name == "" {
+					return
+				}
+				t := Type{Name: name}
+				if rng.Intn(2) == 0 {
+					t.Rels = []Rel{{Name: rel, Rewrite: This(), Restr: []Ref{{Type: name}}}}
+				}
+				ms.Files[f].Types = append(ms.Files[f].Types, t)
+			}(f, addBelow, c[1])
 			// several clashes in the one extension block (their errors must come out in a fixed order)
 			if rng.Intn(2) == 0 {
 				for _, o := range cands {
